@@ -885,6 +885,9 @@ class Fxp():
             else:
                 val = val.astype(original_vdtype)
                 val_dtype = np.int64 if self.signed else np.uint64
+                # work on double precision parts (single precision complex inputs would round the limits)
+                new_val_real = np.vectorize(lambda v: v.real)(val)
+                new_val_imag = np.vectorize(lambda v: v.imag)(val)
             
             # rounding and overflowing
             new_val_real = self._round(new_val_real * conv_factor, method=self.config.rounding)
